@@ -261,6 +261,7 @@ def check_regex_resolution_per_evaluation(repo: Repo, res: Result) -> None:
     vm = dview(repo, match, lm, family(repo, lm), tag="lm")
     ev = match.param_names[1] if len(match.param_names) > 1 else None
     convs = []
+    rebuilt: list[ast.Call] = []
     for n in all_nodes(vm):
         if isinstance(n, ast.Call):
             src = getattr(n, "_src", None)
@@ -271,6 +272,14 @@ def check_regex_resolution_per_evaluation(repo: Repo, res: Result) -> None:
                 cs = []
             if any(c.cls is not None and c.cls.fq == conv.fq and not c.name.startswith("_") for c in cs):
                 convs.append(n)
+            else:
+                # the layer mapping with regex layers replaced by matched modules is part of the per-evaluation resolution
+                try:
+                    ci = T.ctor_class(ctx, orig)
+                except Exception:  # noqa: BLE001
+                    ci = None
+                if ci is not None and ci.fq == f"{EVAL_ARCH}.LayerMapping":
+                    rebuilt.append(n)
     construct = f"{match.relpath}::RuleMatcher.match::regexes resolved against the evaluable being judged"
     if not convs:
         res.undecide("C05.R7", construct, "no call of ModuleNameConverter reachable in the inlined view of RuleMatcher.match", where(match, match.node))
@@ -278,12 +287,12 @@ def check_regex_resolution_per_evaluation(repo: Repo, res: Result) -> None:
     stateful = []
     # state that match() itself writes: a condition on it makes the conversion depend on earlier evaluations
     written = {norm(n) for n in all_nodes(vm) if isinstance(n, ast.Attribute) and isinstance(n.ctx, ast.Store)}
-    for c in convs:
+    for c in [*convs, *rebuilt]:
         g = guard_formula(vm, c)
         state_atoms = sorted(a for a in atoms_of(g) if any(w in a for w in written) or "getattr(self" in a or "hasattr(self" in a)
         if state_atoms and not implies(TRUE, g):
             stateful.append((c, state_atoms))
-        if ev is not None and not any(isinstance(x, ast.Name) and x.id == ev for a in [*c.args, *[k.value for k in c.keywords]] for x in ast.walk(a)):
+        if c in convs and ev is not None and not any(isinstance(x, ast.Name) and x.id == ev for a in [*c.args, *[k.value for k in c.keywords]] for x in ast.walk(a)):
             stateful.append((c, [f"the evaluable `{ev}` is not an argument"]))
     if not stateful:
         res.add("C05.R7", construct, True, f"{len(convs)} regex conversion(s) run unconditionally on every match, on the evaluable handed in", where(match, match.node), kind="dominance")
@@ -293,7 +302,8 @@ def check_regex_resolution_per_evaluation(repo: Repo, res: Result) -> None:
         res.add("C05.R7", construct, True, "the regex conversion depends on matcher state, but Rule.assert_applies builds a fresh matcher for every evaluation", where_of(vm, c), kind="dominance")
         res.observe(f"C05.R7 `{norm(c, 60)}` is skipped depending on {atoms_} (harmless while every evaluation builds a new matcher)")
     elif fresh is False:
-        res.add("C05.R7", key_of(repo, vm, c, " [regex conversion]"), False, f"`{norm(c, 60)}` is skipped depending on the matcher's own state ({', '.join(atoms_)}) and {why_a}: a layer rule applied to a second evaluable judges it with the modules its regex layers matched in the first one", where_of(vm, c), kind="dominance")
+        what = "regex conversion" if c in convs else "layer mapping"
+        res.add("C05.R7", key_of(repo, vm, c, f" [{what}]"), False, f"`{norm(c, 60)}` is skipped depending on the matcher's own state ({', '.join(atoms_)}) and {why_a}: a layer rule applied to a second evaluable judges it with the modules its regex layers matched in the first one", where_of(vm, c), kind="dominance")
     else:
         res.undecide("C05.R7", construct, f"`{norm(c, 60)}` depends on matcher state ({', '.join(atoms_)}) and it could not be established whether Rule.assert_applies builds a new matcher per evaluation", where_of(vm, c))
 
